@@ -54,6 +54,15 @@ pub fn values_for<T: Fl>(kind: Kind, grid: usize) -> Vec<[T; 3]> {
     out
 }
 
+/// `values_for` plus the full branch-covering pair lattice (exact thresholds ± 1 ulp)
+pub fn values_with_thresholds<T: Fl>(kind: Kind, grid: usize) -> Vec<[T; 3]> {
+    let mut out = values_for::<T>(kind, grid);
+    out.extend(pair_lattice::<T>(kind, true));
+    out.sort_by_key(|v| bits3(*v));
+    out.dedup_by_key(|v| bits3(*v));
+    out
+}
+
 /// the constants compared against in the transfer functions and the L* toe, on a unit scale
 pub const KNEES: [f64; 6] = [0.0031308, 0.04045, 0.018053968510807, 4.5 * 0.018053968510807, 216.0 / 24389.0, 6.0 / 29.0];
 
